@@ -436,6 +436,22 @@ class History(Part):
         return res
 
 
+def salt_candidates(msg):
+    """Every string in a log message that could be 'the reported salt', however it is quoted:
+    quoted strings, blank-separated tokens with surrounding punctuation stripped, and maximal
+    runs of characters that can occur in a generated salt."""
+    c = re.findall(r'"([^"]*)"', msg) + re.findall(r"'([^']*)'", msg) + re.findall(r"<([^<>]*)>", msg)
+    c += re.findall(r"\[([^\[\]]*)\]", msg) + re.findall(r"\(([^()]*)\)", msg)
+    for t in msg.split():
+        c.append(t)
+        c.append(t.strip("\"'.,:;()<>[]{}=`"))
+        c.append(re.sub(r"^\W+|\W+$", "", t))
+        if "=" in t:
+            c.append(t.split("=", 1)[1].strip("\"'.,:;()<>[]{}`"))
+    c += re.findall(r"[A-Za-z0-9]{6,}", msg)
+    return [x for x in dict.fromkeys(c) if x]
+
+
 class GeneratedSalt(Part):
     name = "generated_salt"
     desc = "no salt given: the reported generated salt reproduces the output (62 scripted first characters)"
@@ -476,11 +492,10 @@ class GeneratedSalt(Part):
             res.count("random_choice_calls", calls["n"])
             cands = []
             for lvl, msg, _ in recs:
-                cands += re.findall(r'"([^"]*)"', msg) + re.findall(r"'([^']*)'", msg)
-                cands += [t.strip("\"'.,:;()") for t in msg.split()]
+                cands += salt_candidates(msg)
             cands = list(dict.fromkeys(x for x in cands if x))
             ok = False
-            for cand in cands[:40]:
+            for cand in cands[:80]:
                 with seams.capture_logs():
                     o2 = ns["run_cfg"](dict(TARGET, salt=cand), TEXT)
                 seams.restore_globals()
